@@ -390,7 +390,7 @@ func Run(c *corr.Ctx) {
 	// random scenarios, each a few times (the schedule differs from run to run)
 	// (the model's lists make the oracle quadratic in the number of packets: its time is part of the
 	// budget, so the pending cases are flushed as we go)
-	budget := time.Duration(c.N(28, 560)) * time.Second
+	budget := time.Duration(c.N(28, 420)) * time.Second
 	for i := 0; time.Since(t0) < budget; i++ {
 		n, reps := 1000, c.N(2, 3)
 		switch {
